@@ -192,17 +192,18 @@ def run(ctx):
             interp.stubs['mask_password'] = stub
             interp.types[SECRET] = 'str'
             interp.max_recursion = 6        # the recursion follows the data
-        outcomes, _i = extract(world, thunk, setup=setup, depth=9)
+        outcomes, _i = extract(world, thunk, setup=setup, depth=9,
+                               capture=lambda i: holder.get('arg'))
         notes = inexact_notes(outcomes)
-        if notes:
+        if notes or not outcomes:
             rep.undecided('R8.4', label, 'inexact: %s' % notes)
             return
-        if len(outcomes) != 1:
-            rep.undecided('R8.4', label, '%d paths for a concrete '
-                          'abstract argument' % len(outcomes))
-            return
-        o = outcomes[0]
-        arg = holder['arg']
+        # every path (e.g. both answers of a comparison the code makes on
+        # the masked text) is held to the same table
+        for o in outcomes:
+            judge(label, o, o.state, want_type_error)
+
+    def judge(label, o, arg, want_type_error):
         rep.case({'argument': label, 'outcome': o.brief()[:200]},
                  (label, o.kind))
         if want_type_error:
@@ -233,6 +234,37 @@ def run(ctx):
                       label, [e[:3] for e in muts][:3]) if muts else
                   '%s: no effect touches the argument' % label, case=label)
 
+    # --- a call after an earlier call with another mask: nothing of the
+    # first call may show in the second
+    def analyse_second(label, build):
+        holder = {}
+        first = T('sym', 'secret_of_an_earlier_call')
+
+        def thunk(interp):
+            interp.call(f, [build()], {'secret': first})
+            arg = build()
+            holder['arg'] = arg
+            return interp.call(f, [arg], {'secret': SECRET})
+
+        def setup(interp):
+            interp.stubs['mask_password'] = stub
+            interp.types[SECRET] = 'str'
+            interp.types[first] = 'str'
+            interp.max_recursion = 6
+        outcomes, _i = extract(world, thunk, setup=setup, depth=9,
+                               capture=lambda i: holder.get('arg'))
+        notes = inexact_notes(outcomes)
+        if notes or not outcomes:
+            rep.undecided('R8.4', label, 'inexact: %s' % notes)
+            return
+        for o in outcomes:
+            judge(label, o, o.state, False)
+    analyse_second(
+        'second call with another mask',
+        lambda: mapping([(K('password'), K('p')), (K('note'), K('--token t')),
+                         (K('plain'), K('words')),
+                         (K('sub'), mapping([(K('x'), K('password=abc'))],
+                                            'Mapping', label='inner'))]))
     # --- non-mapping arguments
     for lab, v in (('None', K(None)), ("''", K('')), ('0', K(0)),
                    ('[]', ListV()), ('5', K(5)), ("'x'", K('x')),
@@ -260,7 +292,9 @@ def run(ctx):
                 lambda s=key: mapping([(K(s), ListV([K(1)]))]))
     # --- near misses and non-string keys
     for k in (K('user'), K('tok'), K('passwor'), K(''), K(5), K((1, 2)),
-              K(b'password'), K(None), K('pass word')):
+              K(b'password'), K(None), K('pass word'), K('new-pass'),
+              K('admin-pass'), K('X-SYS-PSWD-2'), K('private.key'),
+              K('pass_word'), K('p\u0430ssword')):
         for v in (K('text'), K(7), K(None), K(b'bytes'),
                   # secrets embedded in every notation mask_password knows,
                   # and values made of other characters only
